@@ -186,7 +186,7 @@ def _random_dim(rng: random.Random, depth: int):
 
 
 def _selftest(n: int = 600, seed: int = 0) -> int:
-    driver = os.environ.get("C16_SYMPY_DRIVER", "/tmp/lean-c16-sp/.lake/build/bin/irdriver")
+    driver = os.environ.get("C16_SYMPY_DRIVER", os.path.join(os.path.dirname(os.path.dirname(os.path.abspath(__file__))), "lean", ".lake", "build", "bin", "irdriver"))
     rng = random.Random(seed)
     envs = [[["N", a], ["M", b], ["K", c]]
             for (a, b, c) in [(3, 2, 5), (1, 1, 1), (7, 3, 2), (4, 6, 9), (0, 2, 3), (2, 0, -1),
